@@ -37,6 +37,7 @@ PLAN = {
     "C12": {"level": "exploration", "units": [
         unit("side", "TestC12", 1000, 6000, replay="TestReplayC12"),
         unit("side", "TestC12Concurrent", 100, 1500, seed_off=400),
+        unit("side", "TestC12Listener", 300, 3000, seed_off=900),
         {"pkg": "side", "test": "FuzzC12", "kind": "fuzz", "fuzztime": {"thorough": "180s"}, "checks": {"quick": 0, "thorough": 0}, "replay": None}]},
     "C13": {"level": "fault_enumeration", "units": [unit("side", "TestC13", 250, 3000, replay="TestReplayC13")]},
     "C14": {"level": "exploration", "units": [
